@@ -4,6 +4,7 @@ CONSTANTS
   KORD <- t_KORD
   GENVALS <- t_GENVALS
   DECI <- t_DECI
+  UNBOND <- t_UNBOND
   PREC <- t_PREC
   DEVS <- t_DEVS
 POSTCONDITION Consumed
